@@ -16,6 +16,7 @@ from fst import FST
 
 PROPERTY = 'C13'
 THOROUGH_SCALE = 2.0
+THOROUGH_STRIDE = 2        # thorough tier = all quick cells + every 2th thorough-only cell (sized to run end-to-end; '--cells' reaches the others)
 
 SRCS = {
     'small': 'x = f(a, b)  # cx\n\n# lead y\ny = [1, 2,  # two\n     3]\nif x:  # h\n    z = x + y  # cz\nelse:\n    z = -x\nprint(z)  # end\n',
